@@ -576,6 +576,10 @@ def _tag_specs(tier):
     specs.append({"tags": [("ab", False), ("abcd", True), ("ABC", False)]})       # near misses only
     specs.append({"tags": [("a,b", False), ("abc", True)]})                          # comma inside a tag
     specs.append({"tags": [("x y", False)]})
+    # the quoted tag "*" is an ordinary entity tag, not the wildcard (seed C11-5)
+    specs.append({"tags": [("*", False)]})
+    specs.append({"tags": [("x", False), ("*", False)]})
+    specs.append({"tags": [("*", True), ("zzz", False)]})
     if tier == "thorough":
         specs.append({"tags": [("", False)]})
         specs.append({"tags": [("", True), ("abc", False)]})
